@@ -150,6 +150,9 @@ type config struct {
 	// some translated attachments are not attachments ("nope…") and some translated quick replies evaluate to "":
 	// they are left out of the message after the choice is made, and the locale is decided on what is left
 	Filter bool `json:"unsendable_parts"`
+	// every non-empty text of say_msg (base and translations) is an expression that evaluates to a blank (" "): what
+	// is spoken is the trimmed text, so the message is text-less and in the language of its audio URL
+	SayBlank bool `json:"say_text_evaluates_to_blank"`
 	BaseVars  []string `json:"template_variables"`
 	Tr          map[string][][]string `json:"translations"` // prop -> per language index 2,3 and 1 (= the base language itself: a stale entry) -> stored (nil absent)
 	States      map[string][3]int   `json:"states"`
@@ -189,6 +192,7 @@ const (
 	tplSendUUID = "33333333-3333-4333-8333-33333333333a"
 	templateUUID = "88888888-8888-4888-8888-888888888881"
 	channelUUID = "99999999-9999-4999-8999-999999999992"
+	blankExpr   = `@(" ")`          // evaluates to one space: a text that is blank but not empty
 	emptyExpr   = "@fields.caption" // a field the contact has no value for: evaluates to "" without an error
 )
 
@@ -238,6 +242,9 @@ func buildAssets(c *config) []byte {
 				arr2 := make([]string, len(arr))
 				for i, t := range arr {
 					arr2[i] = ee(t)
+					if p.name == "say_text" && c.SayBlank && t != "" {
+						arr2[i] = blankExpr
+					}
 				}
 				arr = arr2
 			}
@@ -298,6 +305,9 @@ func buildAssets(c *config) []byte {
 		},
 	}
 	say := map[string]any{"uuid": sayUUID, "type": "say_msg", "text": ee("say")}
+	if c.SayBlank {
+		say["text"] = blankExpr
+	}
 	if c.BaseAudio != "" {
 		say["audio_url"] = c.BaseAudio
 	}
@@ -844,7 +854,7 @@ func oracle(c *config, o *observed, res *hx.Result) {
 	}
 	// say_msg: text and audio URL by the chain, each on its own; the locale names the language of the text
 	st, stl := first("say_text", "say")
-	if c.EvalEmpty { // the text of the message evaluates to ""
+	if c.EvalEmpty || c.SayBlank { // the text of the message evaluates to ""
 		st = ""
 	}
 	sa, sal := first("say_audio", c.BaseAudio)
@@ -1002,7 +1012,7 @@ func caseCoq(c *config, o *observed) string {
 		"     k_o_text := %s; k_o_atts := %s; k_o_qrs := %s; k_o_lang := %s; k_o_setres := %s; k_o_matched := %s; k_o_catl := %s;\n"+
 		"     k_loc_langs := %s; k_o_bcast := %s;\n"+
 		"     k_audio := %s; k_play := %s; k_tr_subject := %s; k_tr_body := %s; k_tr_say_text := %s; k_tr_say_audio := %s; k_tr_play_audio := %s;\n"+
-		"     k_eval_empty := %s; k_tvars := %s; k_tr_tvars := %s; k_o_tvars := %s;\n"+
+		"     k_eval_empty := %s; k_say_blank := %s; k_tvars := %s; k_tr_tvars := %s; k_o_tvars := %s;\n"+
 		"     k_o_forc := %s; k_o_forc_lang := %s;\n"+
 		"     k_o_email := %s; k_o_say := %s; k_o_play := %s |}",
 		hx.N(c.effLang()), hx.List(c.Allowed, hx.N), hx.Str(c.BaseText), hx.List(c.BaseAtts, hx.Str), hx.List(c.BaseQRs, hx.Str), hx.List(c.BaseArgs, hx.Str),
@@ -1012,7 +1022,7 @@ func caseCoq(c *config, o *observed) string {
 			return fmt.Sprintf("(%s, (%s, (%s, %s)))", hx.N(b.Lang), hx.Str(b.Text), hx.List(b.Atts, hx.Str), hx.List(b.QRs, hx.Str))
 		}),
 		hx.Str(c.BaseAudio), hx.Str(c.playURL()), trCoq(c, "subject"), trCoq(c, "body"), trCoq(c, "say_text"), trCoq(c, "say_audio"), trCoq(c, "play_audio"),
-		hx.Bool(c.EvalEmpty), hx.List(c.BaseVars, hx.Str), trCoq(c, "template_variables"), hx.List(o.TplVars, hx.Str),
+		hx.Bool(c.EvalEmpty), hx.Bool(c.SayBlank), hx.List(c.BaseVars, hx.Str), trCoq(c, "template_variables"), hx.List(o.TplVars, hx.Str),
 		hx.List(o.ForContact, func(b bcastTr) string {
 			return fmt.Sprintf("(%s, (%s, (%s, %s)))", hx.N(b.Lang), hx.Str(b.Text), hx.List(b.Atts, hx.Str), hx.List(b.QRs, hx.Str))
 		}), hx.List(o.ForLocale, hx.N),
@@ -1090,6 +1100,7 @@ func main() {
 						c.BaseAudio = longURL("http://x.io/say/")
 					}
 					c.Filter = k%13 == 7
+					c.SayBlank = k%9 == 4
 					c.BaseVars = []string{"v1", "v2"}
 					c.BaseArgs = []string{"1", "10"}
 					if k%3 == 1 {
